@@ -131,6 +131,7 @@ def enc_run(rec):
         metrics=["%s=%s" % (k, v) for k, v in rec.get("metrics", [])],
         balances=["%s|%s|%s" % (b["ex"], b["type"], ",".join("%s:%s" % (k, v) for k, v in b["assets"])) for b in f.get("balances", [])],
         result_keys=[str(k) for k in rec.get("result_keys", [])],
+        hist_args_before=list(rec.get("hist_args_before", [])), hist_args_after=list(rec.get("hist_args_after", [])),
         hist_exc=[str(x) for x in rec.get("hist_exc", [])])
 
 
